@@ -23,6 +23,10 @@ package system
 //@ requires s.config.SubmissionBatchSize > 0 && s.config.CompletionBatchSize > 0
 //@ loop-complete 1
 //@ loop-complete 3
+// the coroutines of a tick run on the tick's own clock reading, to the millisecond (C04: a deadline is compared with
+// the server clock, not with a rounded copy of it)
+//@ site call RunUntilBlocked assert [C03 C04 C07 C09 C10 C12 C14] arg0 == t
+//@ site call Flush assert [C04 C12] arg0 == t
 //@ site loop 1 backedge assert itercalls("cqe_callback") == 1
 // a background job that was started is remembered (its promise and start time), so that it is not started
 // again while it is still running (C08: a single instance of each background job at a time)
